@@ -421,6 +421,7 @@ func c10Modes(rng *rand.Rand, s int, offset int) []string {
 func runC10(r *Run) {
 	c10ResetThenEnd(r)
 	c10PendingReset(r)
+	c10ExpiredThenEnd(r)
 	rng := r.Rand("c10")
 	maxH := r.Scale(3, 8)
 	stopped := map[string]bool{}
